@@ -40,6 +40,8 @@ class KaniResult:
             bounded=[dict(name=h['name'], status=h['status'], bound=h['bound'], cbmc_properties=h['checks'], time_s=h['time_s'], clause=h['clause']) for h in bnd],
             build_s=round(self.build_s, 1), wall_s=round(self.wall_s, 1),
             samples=[dict(backend='kani', harness=h['name'], clause=h['clause'], status=h['status']) for h in self.harnesses[:4]],
+            # harnesses that pin a recorded known finding: expected to fail while the finding is open; never counted
+            known_finding_probes=[dict(name=h['name'], status=h['status'], clause=h['clause'], time_s=h['time_s']) for h in self.harnesses if h['kind'] == 'finding'],
         )
 
 def _inject(crate, verif, group, g):
